@@ -1047,8 +1047,8 @@ Section HitOk.
   Lemma window_class k m plus s i : nth_error (cmotifs c) k = Some m ->
     let sQ := scoreQ (cK c) (spec_score (lo m) plus s i) in
     let T := m_T (nth k (map (mctx_of c) (cmotifs c)) (MC [] 0 0 None)) in
-    (passw c m plus s i = true -> classify T sQ <> WMiss) /\
-    (passw c m plus s i = false -> classify T sQ <> WHit).
+    (passw c m plus s i = true -> wcls T s i (length (lo m)) sQ <> WMiss) /\
+    (passw c m plus s i = false -> wcls T s i (length (lo m)) sQ <> WHit).
   Proof.
     intros Ek sQ T. destruct G as [HK [Hbin [HT [Hne [HG Hss]]]]].
     assert (Gm : mgood (cK c) (cbin c) m).
@@ -1057,9 +1057,10 @@ Section HitOk.
     assert (ET : T = Some (inject_Z (b0of c m) * cbin c)%Q).
     { unfold T. rewrite (nth_error_nth _ _ _ (map_nth_error (mctx_of c) k (cmotifs c) Ek)).
       rewrite Ex. reflexivity. }
-    rewrite ET. unfold passw. rewrite (passes_Qltb _ _ _ _ HK). split.
-    - apply classify_pass.
-    - apply classify_nopass.
+    rewrite ET. unfold passw. rewrite (passes_Qltb _ _ _ _ HK). unfold wcls.
+    destruct (all_unknown s i (length (lo m))).
+    - fold sQ. split; intros H; rewrite H; discriminate.
+    - split; [apply classify_pass | apply classify_nopass].
   Qed.
 
   Lemma hit_ok_member k m plus l s i :
@@ -1098,7 +1099,7 @@ Section HitOk.
     - lia.
     - apply Z.leb_le. lia.
     - apply Z.eqb_eq. lia.
-    - destruct (classify _ sQ); [reflexivity | congruence | reflexivity].
+    - destruct (wcls _ _ _ _ sQ); [reflexivity | congruence | reflexivity].
     - apply Qclose_refl. apply Qmax1_nonneg.
     - unfold p_ok. cbn [existsb]. unfold sQ. rewrite <- (score_bin_Qtrunc _ _ _ HK Hbin). fold q.
       rewrite (tailp_count m _ q W).
@@ -1137,8 +1138,8 @@ Section HitOk.
     rewrite (Hcount k plus l i m s Ek El Hp) by lia.
     destruct (window_class k m plus s i Ek) as [C1 C2].
     destruct (passw c m plus s i).
-    - specialize (C1 eq_refl). destruct (classify _ _); [reflexivity | congruence | reflexivity].
-    - specialize (C2 eq_refl). destruct (classify _ _); [congruence | reflexivity | reflexivity].
+    - specialize (C1 eq_refl). destruct (wcls _ _ _ _ _); [reflexivity | congruence | reflexivity].
+    - specialize (C2 eq_refl). destruct (wcls _ _ _ _ _); [congruence | reflexivity | reflexivity].
   Qed.
 
   Lemma windows_model : windows_ok c (map (mctx_of c) (cmotifs c)) (concat (pgroups c (cmotifs c) 0)) = true.
@@ -1362,7 +1363,7 @@ Section CountsOk.
 
   Definition wcnt (T : option Q) (m : motif) (plus : bool) (s : list Z) (cls : wclass) : Z :=
     Z.of_nat (length (filter (fun i =>
-        match classify T (scoreQ (cK c) (spec_score (lo m) plus s i)), cls with
+        match wcls T s i (length (lo m)) (scoreQ (cK c) (spec_score (lo m) plus s i)), cls with
         | WHit, WHit | WAmb, WAmb => true
         | _, _ => false
         end) (seq 0 (length s + 1 - length (lo m))))).
@@ -1390,10 +1391,10 @@ Section CountsOk.
       - apply inj_le. apply filter_len_le. intros i _ Hi.
         destruct (window_class c G k m plus s i Ek) as [_ C2]. fold ctxs T in C2.
         destruct (passw c m plus s i); [reflexivity|]. specialize (C2 eq_refl).
-        destruct (classify T _); congruence.
+        destruct (wcls T _ _ _ _); congruence.
       - rewrite <- Nat2Z.inj_add. apply inj_le. apply filter_len_split. intros i _ Hi.
         destruct (window_class c G k m plus s i Ek) as [C1 _]. fold ctxs T in C1. specialize (C1 Hi).
-        destruct (classify T _); [left; reflexivity | congruence | right; reflexivity]. }
+        destruct (wcls T _ _ _ _); [left; reflexivity | congruence | right; reflexivity]. }
     rewrite <- sumz_map_add. split.
     - apply sumz_map_le. intros plus _. apply sumz_map_le. intros s _. apply (Hper plus s).
     - apply sumz_map_le. intros plus _. rewrite <- sumz_map_add. apply sumz_map_le. intros s _. apply (Hper plus s).
